@@ -129,6 +129,25 @@ def run_eq(c):
             ck.add(f)
         else:
             ck.check(bool(r) is truth, f"eq:{tag}:{name}" + (":complex" if cf != 1.0 else ""), bool(r))
+    if kind in ("polygon", "triangle") and x.array.ndim == 2:
+        # the same vertex cycle started elsewhere and run through in the other direction, every vertex with its own factor
+        nv = x.array.shape[0]
+        for shift in range(nv):
+            for rev in (False, True):
+                rows = np.roll(x.array, shift, axis=0)
+                if rev:
+                    rows = rows[::-1]
+                rows = rows * np.array([factors[i % len(factors)] for i in range(nv)])[:, None]
+                w_, f = call(f"eq:{tag}:construct", lambda: type(x)(*[G.Point(r) for r in rows]))
+                if f:
+                    ck.add(f)
+                    continue
+                for name, a, b in (("x==cycle", x, w_), ("cycle==x", w_, x)):
+                    r, f = call(f"eq:{tag}", lambda: a == b)
+                    if f:
+                        ck.add(f)
+                    else:
+                        ck.check(bool(r) is True, f"eq:{tag}:{name}:{'reversed' if rev else 'rotated'}:per-vertex-factors", (shift, bool(r)))
     # a clearly different object of the same kind
     try:
         z, _ = Z.build(kind, d, c["w"])
